@@ -108,7 +108,8 @@ def feed(report, reps, props=None, kinds=None, funcs=None):
                       by=sorted(s['by']), model=s['model'],
                       detail='%d path instances over scenarios %s' % (
                           s['inst'], sorted(set(s['scen']))),
-                      meta={'line': o['line'], 'scenarios': s['scen']}))
+                      meta={'line': o['line'], 'scenarios': s['scen'],
+                            'bounded': ':op.__init__:' in oid}))
 
 
 
